@@ -1,31 +1,6 @@
-"""Per-property check definitions."""
-from .core import Run, BASE_TRUST
-
-Q = "quick"
+"""Per-property check definitions are modules vt/p_cXX.py, each exporting run(run) and META."""
+import importlib
 
 
-def n_for(run, quick, thorough):
-    return quick if run.tier == Q else thorough
-
-
-def c06(run):
-    run.assumptions += [
-        "strings enter the model with the coercion profile the real value.To* functions report (theorems hold for all profiles)",
-        "float + - * / are a FloatOps parameter in the theorems; the driver's round-to-nearest-even instance is validated against the hardware by stream c06 (arith, prof)",
-    ]
-    run.obligations_for(["Csvq.Props.C06"])
-    run.stream("c06", n_for(run, 4000, 200000))
-    if run.tier != Q:
-        for k in range(1, 4):
-            run.stream("c06", 100000, seed_offset=k)
-    return run.finish(
-        level="proof",
-        rule="operand pairs/triples/lists drawn from every value class of C06 (int64 bounds, ±0, NaN, ±Inf, subnormals, 2^53±1, padded/cased numeric, boolean and datetime strings, plain strings, booleans, ternaries, datetimes, NULL), by direct library call and through SELECT text; non-trivial = distinct (stream, operand classes, result) signature",
-        trusted_base=BASE_TRUST + ["coercion profiles: results of strconv.ParseInt/ParseFloat/ParseBool and time.Parse are taken from the implementation"],
-        checker_cmd="cd /verif/lean && lake build Csvq.Props.C06 && lake env lean <#print axioms for every theorem>",
-    )
-
-
-PROPS = {
-    "C06": c06,
-}
+def load(pid):
+    return importlib.import_module("vt.p_" + pid.lower())
